@@ -41,6 +41,8 @@ func init() {
 			"a waiter of a coalesced dial can leave through its own context and (context provenance) does not receive the dialling subscriber's cancellation; a connection unregisters only itself and an empty connection is closed; " +
 			"the closed flag of an idle connection is flipped atomically with the admission test of subscribe and a refused admission is retried instead of returned. It does not decide message order, idle-period timing or conns→0 over histories.",
 		Mutants: []Mutant{
+			{Name: "waiters re-dial only on context.Canceled again (reverts part of the F53 fix)", File: wsTransportGo, Rule: "C18-R13", Key: "WSTransport.getOrDial/waiter-returns-shared-error-only-after-testing-the-record",
+				Old: "if ctx.Err() == nil && (result.diallerGone || errors.Is(result.err, context.Canceled)) {", New: "if ctx.Err() == nil && errors.Is(result.err, context.Canceled) {"},
 			{Name: "ping stamped after the write returned (reverts the F38 fix)", File: "v2/pkg/engine/datasource/graphql_datasource/subscriptionclient/transport/ws_conn.go", Rule: "C18-R12", Key: "wsConnection.sendPing/ping-stamped-before-write",
 				Old: "\tprevious := c.lastPingSentAt.Swap(time.Now().UnixNano())\n\tif err := pinger.Ping(pingCtx, c.conn); err != nil {\n\t\tc.lastPingSentAt.Store(previous)\n\t\treturn err\n\t}\n\treturn nil\n",
 				New: "\tif err := pinger.Ping(pingCtx, c.conn); err != nil {\n\t\treturn err\n\t}\n\tc.lastPingSentAt.Store(time.Now().UnixNano())\n\treturn nil\n"},
@@ -106,6 +108,7 @@ func init() {
 func runC18(r *fw.Run) {
 	defer c18SharedWritesUnderConnectionContext(r)
 	defer c18AckTimeoutOnlyOnDeadline(r)
+	defer c18WaitersLearnWhetherTheDiallerWasGone(r)
 	defer c18PingStampedBeforeWrite(r)
 	defer c18SubscribeExitsRunIdleCheck(r)
 	p := r.Prog
@@ -2035,4 +2038,117 @@ func c18PingStampedBeforeWrite(r *fw.Run) {
 		in.Run(nil)
 	}
 	r.Expect("C18-R12", "Pinger.Ping calls in package transport", n, 1)
+}
+
+// c18WaitersLearnWhetherTheDiallerWasGone (R13): a coalesced dial fails for two very different reasons — the upstream did
+// not answer (every waiter would fail the same way), or the dialling subscriber's own context ended (cancelled, or past
+// *its* deadline), which says nothing about the upstream. The error value cannot tell them apart (the dialler's deadline
+// surfaces as the protocol's ack timeout). The dialler therefore records the state of its own context in the shared
+// result before it wakes the waiters, and a waiter hands the shared error on only after a test of that record; otherwise
+// a waiter without any deadline fails with "connection_ack timeout" after the dialler's 100 ms.
+func c18WaitersLearnWhetherTheDiallerWasGone(r *fw.Run) {
+	p := r.Prog
+	r.Rule("C18-R13", "in getOrDial the dialler records the state of its own context (ctx.Err()) in the shared dial result before closing done, and a waiter returns the shared error only after a test of that record")
+	fi := p.Func(c18T, "WSTransport.getOrDial")
+	if fi == nil {
+		r.Error("C18-R13: WSTransport.getOrDial not found")
+		return
+	}
+	info := fi.Info()
+	sig := fi.Obj.Type().(*types.Signature)
+	var ctxParam types.Object
+	for i := 0; i < sig.Params().Len(); i++ {
+		if fw.TypeIs(sig.Params().At(i).Type(), "context", "Context") {
+			ctxParam = sig.Params().At(i)
+		}
+	}
+	mentionsOwnCtxErr := func(e ast.Expr) bool {
+		found := false
+		fw.WalkAll(e, func(n ast.Node) bool {
+			if c, ok := n.(*ast.CallExpr); ok {
+				if sel, isSel := ast.Unparen(c.Fun).(*ast.SelectorExpr); isSel && sel.Sel.Name == "Err" {
+					if id, isID := ast.Unparen(sel.X).(*ast.Ident); isID && info.Uses[id] == ctxParam {
+						found = true
+					}
+				}
+			}
+			return !found
+		})
+		return found
+	}
+	// fields of dialResult assigned from the dialler's context state
+	record := map[*types.Var]bool{}
+	fw.WalkAll(fi.Decl.Body, func(nd ast.Node) bool {
+		as, ok := nd.(*ast.AssignStmt)
+		if !ok || len(as.Lhs) != len(as.Rhs) {
+			return true
+		}
+		for i, l := range as.Lhs {
+			if fv, sel := fw.Field(info, l); fv != nil {
+				if _, tn := fw.FieldOwner(info, sel); tn == "dialResult" && mentionsOwnCtxErr(as.Rhs[i]) {
+					record[fv] = true
+				}
+			}
+		}
+		return true
+	})
+	mentionsRecord := func(e ast.Expr) bool {
+		found := false
+		fw.WalkAll(e, func(n ast.Node) bool {
+			if sel, ok := n.(*ast.SelectorExpr); ok {
+				if fv, _ := fw.Field(info, sel); fv != nil && record[fv] {
+					found = true
+				}
+			}
+			return !found
+		})
+		return found
+	}
+	nClose, nRet := 0, 0
+	in := fw.NewInterp(fi)
+	in.H = fw.Hooks{
+		Cond: func(e ast.Expr, branch bool, st *fw.State) {
+			if mentionsRecord(e) {
+				st.Set("record-tested")
+			}
+		},
+		Node: func(nd ast.Node, st *fw.State) {
+			if as, ok := nd.(*ast.AssignStmt); ok && len(as.Lhs) == len(as.Rhs) {
+				for _, l := range as.Lhs {
+					if fv, _ := fw.Field(info, l); fv != nil && record[fv] {
+						st.Set("recorded")
+					}
+				}
+			}
+			c, ok := nd.(*ast.CallExpr)
+			if !ok || !in.Final() || fw.Builtin(info, c) != "close" || len(c.Args) != 1 {
+				return
+			}
+			if fv, sel := fw.Field(info, c.Args[0]); fv != nil && fv.Name() == "done" {
+				if _, tn := fw.FieldOwner(info, sel); tn == "dialResult" {
+					nClose++
+					r.Check(st.Must("recorded"), "C18-R13", "WSTransport.getOrDial/dialler-records-its-context-state-before-the-wake-up", p.Pos(c.Pos()), "the dialler has recorded the state of its own context in the shared result before close(done)",
+						"the waiters are woken without knowing whether the dialler's own context had ended: they cannot tell the dialler's deadline from an upstream that does not acknowledge")
+				}
+			}
+		},
+		Exit: func(ret *ast.ReturnStmt, lit *ast.FuncLit, st *fw.State) {
+			if lit != nil || ret == nil || !in.Final() || len(ret.Results) != 2 {
+				return
+			}
+			fv, sel := fw.Field(info, ret.Results[1])
+			if fv == nil || fv.Name() != "err" {
+				return
+			}
+			if _, tn := fw.FieldOwner(info, sel); tn != "dialResult" {
+				return
+			}
+			nRet++
+			r.Check(st.Must("record-tested"), "C18-R13", "WSTransport.getOrDial/waiter-returns-shared-error-only-after-testing-the-record", p.Pos(ret.Pos()), "the waiter returns the shared dial error only after a test of the dialler's recorded context state",
+				"the waiter hands the dialler's error on without asking whether the dialler itself was gone: a dialler whose own context ran into its deadline (reported by the protocol as ErrAckTimeout) fails every coalesced waiter — a waiter with no deadline and AckTimeout=30s failed after the dialler's 101 ms with 'connection_ack timeout'")
+		},
+	}
+	in.Run(nil)
+	r.Expect("C18-R13", "close(done) of a dial result", nClose, 1)
+	r.Expect("C18-R13", "returns of the shared dial error", nRet, 1)
 }
